@@ -8,6 +8,8 @@ def run(ctx):
     for tags in (["verif"] + (["verif poll_opt gc_opt"] if ctx.thorough else [])):
         t = system.record(ctx, "sys-" + tags.replace(" ", "+"), tags=tags)
         system.validate(ctx, t, ["TrFd"], "descriptor ledger, " + tags)
+    t = system.record(ctx, "shutdown", test="TestVerifShutdown")
+    system.validate(ctx, t, ["TrFd"], "descriptor ledger across shutdown races")
     ctx.assumptions += system.SYS_ASSUME
     return vlib.finish(ctx, "model_checking",
                        "one case = one engine life (6 configurations {LT, ET, ET+chunk} x {tcp, unix} per round, random loops / reuse-port / buffer sizes) with 6-11 scripted connections each: segmentations (1 byte, exactly the read buffer, bursts, data+FIN), consumption policies (Read/Next/Peek+Discard/Discard/WriteTo, lazy, peek-only); every event validated by TrFd.tla (use only owned descriptors, close owned once, fresh descriptors unowned, foreign descriptors untouched, nothing owned after Run returns)")
